@@ -82,6 +82,14 @@ PROPS["C09"] = dict(units=["min_invsqrt", "consts"], assumptions=[M_SQRT, M_PRIM
     not_decided=["our_sqrt loop invariant (Tonelli-Shanks) -- assumed (M-SQRT)", "arkworks build: window algebra of sqrt_ratio_zeta and SquareRootTables::new -- assumed (M-SQRT); index bounds / overflow see unit ark_invsqrt when present", "Field::sqrt (arkworks generic routine over SQRT_PRECOMP, A-ARK-1)"])
 PROPS["C10"]["units"] = list(PROPS["C10"]["units"]) + ["fieldx_fq", "fieldx_fr", "fieldx_fp"]
 
+PROPS["C16"] = dict(units=["bls_consts", "consts", "ops_fp", "wrap64_fp", "fieldx_fp"],
+    assumptions=[A_ARK1, "parametricity: two instantiations of the same generic arkworks Bls12<Config> code with equal configuration constants over fields with equal arithmetic and serialisation (C10, C11 for Fp) are the same mathematical object, so pairing values, serialisation and scalar multiplication agree and bilinearity / non-degeneracy are those of the reference", M_PRIME],
+    explanation="bls12_377.rs contains no algorithms, only configuration constants: every literal (Fp2/Fp6/Fp12 non-residues, all 6+6+12 Frobenius coefficients, G1/G2 generators, COEFF_B, cofactors and their inverses, x, twist type) is shown by compute to equal the value defined by the modulus (gamma^k with gamma = (-5)^((p-1)/6), delta^k, generators on curve, [r]G1 = O, cofactor*inverse = 1 mod r, p and r as polynomials in x) AND the corresponding constant parsed from the reference crate's source",
+    technique="contract-based deductive verification: generated ground lemmas over the configuration literals extracted from /repo, discharged by Verus by(compute_only); engine equivalence itself is assumed (parametricity) with a bounded differential stand-in in the thorough tier",
+    not_decided=["the pairing computation itself (generic arkworks code, A-ARK) -- bounded differential probe `bls` in the thorough tier", "[r]G2 = O"])
+WATCH_C16 = {"src/ark_curve/bls12_377.rs": [("ark", "bls")]}
+PROPS["C16"]["watch"] = WATCH_C16
+
 # bounded stand-ins (thorough tier only; never counted as proved): probes of /verif/replay_runner against the real crate
 _F = [("ark", "field.fq"), ("ark", "field.fr"), ("ark", "field.fp"), ("min", "field.fq"), ("min", "field.fr"), ("min", "field.fp")]
 PROBES = {
